@@ -654,6 +654,19 @@ static void case_rt_big(vh_rng_t *rng, uint64_t idx, int late, int huge)
 }
 
 /* ---------------------------------------------------------------------------------- */
+/* per-case watchdog: a decoder that stops terminating (e.g. a compression-pointer loop) must not
+ * stall the exploration for the driver's chunk timeout; die at the announced case instead */
+#include <signal.h>
+static void on_alarm(int sig)
+{
+  static const char msg[] = "codec: Assertion `case finished within its 60 s budget (hang)' failed.\n";
+  (void)sig;
+  if (write(2, msg, sizeof(msg) - 1) < 0) {
+    _exit(99);
+  }
+  _exit(98);
+}
+
 int main(int argc, char **argv)
 {
   vh_args_t a;
@@ -662,11 +675,13 @@ int main(int argc, char **argv)
   vh_parse_args(&a, argc, argv);
   g_tag = vh_fnv_str(VH_FNV_INIT, a.profile);
   ares_library_init(ARES_LIB_INIT_ALL);
+  signal(SIGALRM, on_alarm);
   for (i = a.first; i < a.first + a.count; i++) {
     vh_rng_t rng;
     vh_rng_seed(&rng, vh_case_seed(a.seed, a.profile, i));
     vh_case_begin(i);
     vh_count("cases");
+    alarm(60);
     if (!strcmp(a.profile, "gen")) {
       case_gen(&rng);
     } else if (!strcmp(a.profile, "diff")) {
@@ -695,6 +710,7 @@ int main(int argc, char **argv)
       return 2;
     }
   }
+  alarm(0);
   ares_library_cleanup();
   vh_chunk_end();
   return 0;
